@@ -219,13 +219,17 @@ func RecoverTopicToTimestamp(ctx context.Context, s3 S3Client, cfg TopicRecovery
 
 			targetSegmentKey := segmentObjectKey(cfg.TargetNamespace, cfg.TargetTopic, partition, plan.baseOffset)
 			targetIndexKey := segmentIndexKey(cfg.TargetNamespace, cfg.TargetTopic, partition, plan.baseOffset)
-			if err := s3.UploadSegment(ctx, targetSegmentKey, plan.segmentBytes); err != nil {
-				return nil, err
-			}
+			// Record the pair before uploading: an upload can take effect even
+			// though the call reports an error (lost response, timeout), and the
+			// rollback must still remove that object. Deleting a key that was
+			// never written is harmless.
 			copiedObjects = append(copiedObjects, copiedObject{
 				segmentKey: targetSegmentKey,
 				indexKey:   targetIndexKey,
 			})
+			if err := s3.UploadSegment(ctx, targetSegmentKey, plan.segmentBytes); err != nil {
+				return nil, err
+			}
 			if err := s3.UploadIndex(ctx, targetIndexKey, plan.indexBytes); err != nil {
 				return nil, err
 			}
